@@ -2,7 +2,7 @@
 from .core import cps
 from . import project
 
-WS_FILL = [' ', '  ', '\t', '\n', '\r\n', ' \n ', '\n\n', '\t ']
+WS_FILL = [' ', '  ', '\t', '\n', '\r\n', ' \n ', '\n\n', '\t ', '    ', '\n\n\n\n\n', ' \t \n  \n ', '        ']
 
 
 def shape(text):
